@@ -57,6 +57,15 @@ class Z3Ctx:
             cs.append(self.zv(sn) <= 1)
             cs.append(self.zv(cn) >= -1)
             cs.append(self.zv(cn) <= 1)
+        # A-TAYLOR enclosures valid for every real argument b:
+        #   b >= 0: b - b^3/6 <= sin b <= b ;  b <= 0: b <= sin b <= b - b^3/6 ;  1 - b^2/2 <= cos b <= 1 - b^2/2 + b^4/24
+        for (sn, cn) in self.alg.trig_gens:
+            b = self.expr(self.alg.gen_atom[sn][0].args[0])
+            S, Cc = self.zv(sn), self.zv(cn)
+            cs.append(z3.Implies(b >= 0, z3.And(S <= b, S >= b - b * b * b / 6)))
+            cs.append(z3.Implies(b <= 0, z3.And(S >= b, S <= b - b * b * b / 6)))
+            cs.append(Cc >= 1 - b * b / 2)
+            cs.append(Cc <= 1 - b * b / 2 + b * b * b * b / 24)
         for name, (atom, role) in self.alg.gen_atom.items():
             if atom.kind == "atan2":
                 # range (-pi, pi] with rational enclosures of pi
@@ -67,6 +76,8 @@ class Z3Ctx:
                 A = self.zv(name)
                 cs.append(A * A * self.expr(x * x + y * y) >= self.expr(y * y))
                 cs.append(A * self.expr(y) >= 0)
+                # A == 0  <=>  y == 0 and x > 0
+                cs.append((A == 0) == z3.And(self.expr(y) == 0, self.expr(x) > 0))
         cs.extend(extra_facts)
         return cs
 
